@@ -56,12 +56,21 @@ KindOfTok(n) == IF n \in DOMAIN IdText THEN "Ident" ELSE n
 SepText == [
   none |-> <<>>, space |-> <<32>>, tab |-> <<9>>, cr |-> <<13>>, lf |-> <<10>>, comment |-> <<32, 35, 32, 59, 99, 10>>,
   semi |-> <<59>>, blank |-> <<10, 32, 10>>, crlf |-> <<13, 10>>, semisp |-> <<32, 59, 32>>, semilf |-> <<59, 10>>,
-  commentonly |-> <<35, 120, 10, 35, 10>> ]
-Terminates(sp) == sp \in {"lf", "comment", "semi", "blank", "crlf", "semisp", "semilf", "commentonly"}
+  commentonly |-> <<35, 120, 10, 35, 10>>,
+  \* a comment runs to the line feed: a carriage return inside it is comment text
+  commentcr |-> <<32, 35, 32, 97, 13, 43, 32, 98, 10>>, commentcronly |-> <<35, 13, 120, 13, 10>> ]
+Terminates(sp) == sp \in {"lf", "comment", "semi", "blank", "crlf", "semisp", "semilf", "commentonly", "commentcr",
+                         "commentcronly"}
 
 \* may two tokens be written with nothing between them?
 Brackets == {"ParenOpen", "ParenClose", "BracketOpen", "BracketClose", "BraceOpen", "BraceClose", "Comma"}
-CanAbut(a, b) == (a \in Brackets \/ b \in Brackets) /\ ~(a = "BraceOpen" /\ FALSE)
+\* ... or a word-like token next to a symbol (`a-1`, `]-1`, `"s"+x`): they stay two tokens
+WordLike == {"Ident", "IntLiteral", "StrLiteral", "InterpStrLiteral", "If", "Break", "Null"}
+SymLike == DOMAIN TokText \ (WordLike \cup Brackets)
+CanAbut(a, b) == \/ a \in Brackets \/ b \in Brackets
+                 \/ (a \in WordLike /\ b \in SymLike /\ ~(a = "IntLiteral" /\ b \in {"Dot", "DotDot"}))
+                 \/ (a \in SymLike /\ b \in WordLike /\ ~(a \in {"Dot", "DotDot"} /\ b = "IntLiteral")
+                     /\ ~(b = "InterpStrLiteral"))
 
 FirstsQuick == {"Ident", "IntLiteral", "Sum", "Sub", "Comma", "BraceOpen", "BraceClose", "ParenClose", "Dot",
                 "ColonEquals", "DotDot", "EqualsEqualsEquals", "StrLiteral", "If"}
@@ -76,6 +85,12 @@ Cases ==
                                        s1 \in Seps, b \in NewToks }
     \cup { <<b, s1, a, "none", "-">> : b \in NewToks, s1 \in Seps, a \in {"Ident", "BraceOpen", "ParenOpen", "Sum", "IntLiteral"} }
     \cup { <<"BraceClose", s1, b, s2, "BraceOpen">> : s1 \in TripleSeps, b \in NewToks, s2 \in {"space", "lf"} }
+    \* an operator written tight between two operands: `xs[0]-1`, `(a)-1`, `a-1`, `1-1`, `"s"+x`
+    \cup { <<a, "none", b, "none", cx>> :
+             a \in {"BracketClose", "ParenClose", "BraceClose", "Ident", "IntLiteral", "StrLiteral"},
+             b \in {"Sub", "Sum", "Mul", "Div", "Mod", "LessThan", "GreaterThan", "EqualsEquals", "BangEquals", "AmpAmp",
+                    "PipePipe", "Equals", "ColonEquals", "SubEquals", "DashGreaterThan", "Dot", "Comma", "Colon"},
+             cx \in {"IntLiteral", "Ident", "StrLiteral", "ParenOpen", "BracketOpen"} }
     \cup { <<a, s1, b, s2, cx>> : a \in TripleFirsts, s1 \in TripleSeps, b \in Seconds, s2 \in TripleSeps, cx \in Thirds }
 
 TextOf(cs) ==
@@ -85,7 +100,8 @@ TextOf(cs) ==
 SepsAll == DOMAIN SepText
 
 VARIABLE cs
-LInit == \E x \in {y \in Cases : y[2] # "none" \/ CanAbut(y[1], y[3])} : cs = x /\ LexInit(TextOf(x))
+Abuts(y) == (y[2] # "none" \/ CanAbut(y[1], y[3])) /\ (y[5] = "-" \/ y[4] # "none" \/ CanAbut(y[3], y[5]))
+LInit == \E x \in {y \in Cases : Abuts(y)} : cs = x /\ LexInit(TextOf(x))
 LNext == LexNext /\ cs' = cs
 
 \* the rule of the property: a statement ends at a newline or `;` unless the previous
